@@ -379,7 +379,8 @@ def is_some(f, p, ev_index, x):
                     elif c == ("eq", 0):
                         some = None
             for ev in p.events[:take_i]:
-                if ev.kind == "store" and ev.place == ps:
+                # a store to the same place: written here, or by a looked-through helper through a pointer to it
+                if ev.kind == "store" and (ev.place == ps if (ev.target is None or ev.fnpath == tev.fnpath) else place_str(ev.target) == ps):
                     v = ev.value
                     some = "stored Some" if (v[0] == "agg" and v[3] == "Some") else None
                 if ev.kind == "call" and short(ev.name) in ("take", "replace") and ev.args and place_str(ev.args[0]) == ps:
